@@ -86,7 +86,9 @@ def gen_plan(prop, run_seed, tier):
         n = w.choice([131, 140])
     pairs = n * (n - 1) // 2
     n_chunks = w.choice([1, 2, 3, max(1, pairs // 2), max(1, pairs - 1), max(1, pairs), pairs + 1, pairs + 3, w.randint(1, max(2, pairs + 2))])
-    if n > 14:
+    if n > 100:
+        n_chunks = w.choice([1, 2, 3, 7])
+    elif n > 14:
         n_chunks = w.choice([1, 3, 7, 33, 65])
     k_files = 1 if n < 2 else w.randint(1, min(3, n))
     cuts = sorted(w.sample(range(1, n), k_files - 1)) if k_files > 1 else []
@@ -103,7 +105,7 @@ def gen_plan(prop, run_seed, tier):
     return dict(engine="distsim", prop=prop, n=n, lens=lens, n_chunks=n_chunks, screen=spec,
                 theta_seed=w.randrange(2**31), model=w.choice(["sdc", "sdc", "sdci"]), D=w.randint(1, 3),
                 metric=w.choice(["scripted", "scripted", "mse", "mse_nosig"]), order=order, faults=faults,
-                dup_pos=s.randrange(1000), enumerate_faults=(tier == "thorough"), zero_rate=w.choice([0.0, 0.2]),
+                dup_pos=s.randrange(1000), enumerate_faults=(tier == "thorough" and n <= 14), zero_rate=w.choice([0.0, 0.2]),
                 identical_pair=w.random() < 0.2)
 
 
